@@ -45,6 +45,7 @@ class Gen:
         self.readonly: set[int] = set()
         self.scopes: list = []
         self.last_L = None
+        self.fresh_reused = None      # the view carried over at the last epoch boundary (candidate for an immediate update)
         self.last_backward = {}
         # views carried over from an earlier epoch (graph cleared, base lingering until their next use as an operand).  They are
         # never the TERMINAL of a backward(): MyGrad stores the seed on such a tensor but `.grad` - which, for a tensor with a
@@ -698,9 +699,12 @@ class Gen:
             pass
         return ok
 
-    def gen_inplace(self) -> bool:
+    def gen_inplace(self, t=None) -> bool:
         r = self.rng
-        t = self.pick(lambda h: h not in self.readonly and self.arr(h).flags.writeable)
+        if t is None:
+            t = self.pick(lambda h: h not in self.readonly and self.arr(h).flags.writeable)
+        elif t not in self.np.H or t in self.readonly or not self.arr(t).flags.writeable:
+            return False
         if t is None:
             return False
         if not self.tracking() and any(np.shares_memory(self.arr(t), self.arr(u)) for u in self.unguarded if u in self.np.H):
@@ -999,6 +1003,7 @@ class Gen:
                         # to the tensor's value" has no reading at the reference level.
                         reused = h
                         self.disconnected.add(h)
+                        self.fresh_reused = h
                         continue
                     self.stale.add(h)
                     if self.rng.random() < 0.5:
@@ -1026,6 +1031,13 @@ def gen_program(seed: int, profile: dict) -> list[dict]:
         steps = rng.randint(profile.get("min_steps", 2), profile.get("max_steps", 7))
         tries = 0
         done = 0
+        if g.fresh_reused is not None and profile.get("w_inplace", 0.2) > 0 and rng.random() < profile.get("p_update_carried", 0.0):
+            # the view carried over from the epoch that just ended is updated in place before anything else uses it
+            try:
+                done += bool(g.gen_inplace(g.fresh_reused))
+            except GenSkip:
+                pass
+        g.fresh_reused = None
         while done < steps and tries < steps * 6:
             tries += 1
             x = rng.random()
@@ -1158,16 +1170,19 @@ PROFILES = {
                             "act", "cum", "seq", "einsum", "conv", "pool", "loss"], w_func=0.6, p_forder_leaf=0.2,
                 w_view=0.25, w_inplace=0.15, max_leaves=3, max_steps=7, p_const_leaf=0.15, max_epochs=2, p_seed=0.5,
                 p_nonscalar_L=0.5, editgrad=True, w_misc=0.1, misc=["copy"]),
-    "c13": dict(functional=["bin", "bin", "un", "red", "matmul", "gathercopy"], w_func=0.4, w_view=0.25, w_inplace=0.2,
+    "c13": dict(p_update_carried=0.35, functional=["bin", "bin", "un", "red", "matmul", "gathercopy"], w_func=0.4, w_view=0.25, w_inplace=0.2,
                 max_leaves=2, max_steps=9, p_const_leaf=0.15, w_misc=0.3, misc=["fail"], max_epochs=3, p_bad_seed=0.1,
                 p_keep_stale=0.5, p_reuse_stale=0.7),
     "c14": dict(p_where_mask=0.12, functional=["bin", "bin", "un", "power", "red", "matmul", "where", "join", "gathercopy",
                             "act", "cum", "seq", "einsum", "conv", "pool", "loss"], w_func=0.65,
                 w_view=0.25, w_inplace=0.1, max_leaves=3, max_steps=6, p_const_leaf=0.15, p_seed=0.55, p_bad_seed=0.15,
                 p_nonscalar_L=0.7, p_f32_leaf=0.35),
-    "c15": dict(functional=["bin", "bin", "un", "red", "matmul", "gathercopy"], w_func=0.4, w_view=0.3, w_inplace=0.3,
-                max_leaves=2, max_steps=9, p_const_leaf=0.2, p_scope=0.3, max_epochs=3, p_keep_stale=0.4, p_reuse_stale=0.6),
-    "c07": dict(functional=["bin", "un", "red", "matmul", "gathercopy"], w_func=0.5, w_view=0.3, w_inplace=0.2, max_leaves=2,
-                max_steps=5, max_epochs=3, p_const_leaf=0.1, w_misc=0.1, misc=["nullgrad", "copy"], p_keep_stale=0.4, p_reuse_stale=0.5,
+    "c15": dict(p_update_carried=0.35, functional=["bin", "bin", "un", "red", "matmul", "gathercopy"], w_func=0.4, w_view=0.3, w_inplace=0.3,
+                max_leaves=2, max_steps=9, p_const_leaf=0.2, p_scope=0.3, max_epochs=3, p_keep_stale=0.4, p_reuse_stale=0.6,
+                # gradients handed in as slices of a caller-owned buffer: a view's gradient is then re-derived on every read,
+                # also on the reads the harness makes inside the scopes
+                p_seed=0.5, p_nonscalar_L=0.45, p_seed_view=0.85),
+    "c07": dict(p_update_carried=0.7, functional=["bin", "un", "red", "matmul", "gathercopy"], w_func=0.5, w_view=0.3, w_inplace=0.2, max_leaves=2,
+                max_steps=5, max_epochs=3, p_const_leaf=0.1, w_misc=0.1, misc=["nullgrad", "copy"], p_keep_stale=0.5, p_reuse_stale=0.7,
                 p_drop=0.35),
 }
